@@ -16,6 +16,15 @@ CHECKS = {
         "Trusted: num::BigRational, the harness's message readers (public fields only). Alphabet bounds are stated in the evidence; nothing outside them is claimed.",
         "bounded exhaustive enumeration of inputs on the real code vs exact-rational reference model",
     ),
+    "C02": (
+        "model_checking",
+        "Every operator impl the API defines (about 120 Add/Sub/Mul/Neg impls over f64, &DecisionVariable, &Parameter, Linear, Quadratic, Polynomial, Function, "
+        "incl. the macro-generated mixed and reversed ones, plus Sum/Product) is executed on every ordered pair of operand values from closed pools containing every "
+        "representation quirk (unsorted/repeated terms, lower/upper triangle, explicit zeros, absent linear part, every oneof variant); the result message is read back "
+        "through its public fields and must equal exact-rational polynomial arithmetic coefficient by coefficient; term iterators of operands and results must yield sorted ids summing to the polynomial.",
+        "Trusted: num::BigRational and the harness readers. Quick tier traverses oversized pair grids with a fixed stride (recorded in evidence, exhaustive=false then); thorough covers the full grids. Unset-oneof Function operands are outside the alphabet (documented panic).",
+        "bounded exhaustive enumeration of operator impl x operand pairs on the real code vs exact polynomial arithmetic",
+    ),
 }
 
 NOT_YET = "check not yet implemented in this revision of /verif (planned in DESIGN.md section 5)"
